@@ -1,6 +1,8 @@
 package checks
 
 import (
+	"bytes"
+	"encoding/base64"
 	"encoding/json"
 	"fmt"
 	"math/big"
@@ -160,6 +162,8 @@ func (f *cellFixture) must(what string, b *nom.AccountBlock) (types.Hash, error)
 
 func (f *cellFixture) prepare() error {
 	u1, u2 := g.User1, g.User2
+	constants.InitialBridgeAdministrator.SetBytes(g.User5.Address.Bytes())
+	constants.MinAdministratorDelay, constants.MinSoftDelay, constants.MinGuardians = 4, 2, 4
 	id, err := f.w.ActivateSpork("spork-htlc")
 	if err != nil {
 		return err
@@ -207,6 +211,15 @@ func (f *cellFixture) prepare() error {
 		definition.ABIAccelerator.PackMethodPanic(definition.CreateProjectMethodName, "cell project", "a project", "https://zenon.network", unitsOf(10), unitsOf(100)))); err != nil {
 		return err
 	}
+	// bridge: orchestrator info and guardians, so that calls get past the "not initialised" refusals
+	admin := g.User5
+	f.send(admin, types.BridgeContract, znn, big.NewInt(0), definition.ABIBridge.PackMethodPanic(definition.SetOrchestratorInfoMethodName, uint64(6), uint32(3), uint32(15), uint32(10)))
+	guardians := []types.Address{g.User1.Address, g.User2.Address, g.User3.Address, g.User4.Address, g.User5.Address}
+	f.send(admin, types.BridgeContract, znn, big.NewInt(0), definition.ABIBridge.PackMethodPanic(definition.NominateGuardiansMethodName, guardians))
+	if err := f.n.ProduceN(int(constants.MinAdministratorDelay) + 4); err != nil {
+		return err
+	}
+	f.send(admin, types.BridgeContract, znn, big.NewInt(0), definition.ABIBridge.PackMethodPanic(definition.NominateGuardiansMethodName, guardians))
 	f.send(g.Pillar4, types.PillarContract, qsr, unitsOf(150000), definition.ABIPillars.PackMethodPanic(definition.DepositQsrMethodName))
 	f.send(u1, types.SentinelContract, qsr, unitsOf(50000), definition.ABISentinel.PackMethodPanic(definition.DepositQsrMethodName))
 	if err := f.n.ProduceN(3); err != nil {
@@ -218,7 +231,17 @@ func (f *cellFixture) prepare() error {
 		return err
 	}
 	f.w.ReceivePending(u2)
-	return f.n.ProduceN(1)
+	if err := f.n.ProduceN(1); err != nil {
+		return err
+	}
+	st := f.n.Chain.GetFrontierMomentumStore().GetAccountStore(types.BridgeContract).Storage()
+	if si, err := definition.GetSecurityInfoVariable(st); err != nil || len(si.Guardians) < constants.MinGuardians {
+		return fmt.Errorf("fixture: the bridge's guardians are not set (%v)", err)
+	}
+	if oi, err := definition.GetOrchestratorInfoVariable(st); err != nil || oi.WindowSize == 0 {
+		return fmt.Errorf("fixture: the bridge's orchestrator info is not set (%v)", err)
+	}
+	return nil
 }
 
 // ---- concretisation --------------------------------------------------------------------------------
@@ -241,6 +264,11 @@ func int256Class(c string) *big.Int {
 		return pow2(255)
 	}
 	return new(big.Int).Sub(pow2(256), big.NewInt(1))
+}
+
+func sig65(n int) string {
+	b := append(types.NewHash([]byte(fmt.Sprint("r", n))).Bytes(), types.NewHash([]byte(fmt.Sprint("s", n))).Bytes()...)
+	return base64.StdEncoding.EncodeToString(append(b, 1))
 }
 
 func (f *cellFixture) stranger() types.Address {
@@ -370,6 +398,11 @@ func (f *cellFixture) classArg(class string, in abi.Argument, dflt interface{}, 
 				return g.Pillar2Name, true
 			}
 			return "celltoken", true
+		case "b64of33":
+			return base64.StdEncoding.EncodeToString(append([]byte{2}, bytes.Repeat([]byte{0xff}, 32)...)), true
+		case "b64of65":
+			f.counter++
+			return sig65(f.counter), true
 		}
 	case "address":
 		switch class {
@@ -466,6 +499,12 @@ func (f *cellFixture) defaultCall(c cellContract, m string) (*wallet.KeyPair, ty
 	znn, qsr, none := types.ZnnTokenStandard, types.QsrTokenStandard, types.ZeroTokenStandard
 	caller := g.User1
 	switch c.name {
+	case "bridge":
+		switch m {
+		case "WrapToken", "UnwrapToken", "Redeem", "UpdateWrapRequest", "ChangeTssECDSAPubKey", "Halt":
+		default:
+			caller = g.User5 // the administrator set up by the fixture
+		}
 	case "spork":
 		caller = g.Spork
 	case "pillar":
